@@ -235,6 +235,15 @@ def unchecked_decls(tier='quick') -> List[Decl]:
     out.append(mk('unck_point_flag', 'any', 'Point', validators=[Validator('predicate', fn=p)], aux=['Point', pn], new_unchecked=True,
                   derives=['Debug', 'TryFrom', 'AsRef'], props=['C05']))
     out.append(mk('unck_nov_flag', 'int', 'i16', new_unchecked=True, derives=['Debug', 'From', 'AsRef'], props=['C05']))
+    # declared visibilities other than `pub` (the re-exports of type, error and parse error must carry them)
+    for vis, tag in (('', 'private'), ('pub(crate)', 'pubcrate'), ('pub(super)', 'pubsuper')):
+        bl, n1 = aux.sym_bound('lo', 'i32')
+        dv = mk('vis_%s_i32' % tag, 'int', 'i32', validators=[Validator('greater', bl)], aux=[n1], derives=['Debug', 'TryFrom', 'FromStr'], props=['C05'])
+        dv.vis = vis
+        out.append(dv)
+        ds = mk('vis_%s_str' % tag, 'string', 'String', sanitizers=[Sanitizer('trim')], validators=[Validator('not_empty')], derives=['Debug', 'TryFrom'], props=['C05'])
+        ds.vis = vis
+        out.append(ds)
     return out
 
 
